@@ -892,6 +892,17 @@ func TestQueryCompiled(t *testing.T) {
 	runQuery(t, "query-j5s")
 }
 
+var listShaped = []string{"a,b", "1,2,3", "Smith, John", ",", "a,", ",a", "a;b", "a|b", "a b", "a+b", "a%2Cb", "[a,b]", "[\"a\",\"b\"]", "a&b=c", "a\tb", "a\nb"}
+
+func allStrings(items []*jx.Value) bool {
+	for _, it := range items {
+		if it.Kind != jx.Str || it.Sem != "string" {
+			return false
+		}
+	}
+	return len(items) > 0
+}
+
 func runQuery(t *testing.T, lane string) {
 	r := vf.Start(t, prop, lane)
 	rapid.Check(t, func(t *rapid.T) {
@@ -941,8 +952,25 @@ func runQuery(t *testing.T, lane string) {
 					if !ok {
 						continue
 					}
+					arr := m.Val.Clone()
+					if allStrings(m.Val.Items) && rapid.Bool().Draw(t, "listshaped") {
+						// one element that looks like a list in some other convention (comma, pipe,
+						// space, semicolon separated; bracketed; percent-encoded): a repeated
+						// parameter given once is one element, stored as written
+						one := rapid.SampledFrom(listShaped).Draw(t, "listshapedval")
+						n := rapid.IntRange(1, 2).Draw(t, "listshapedn")
+						vals = vals[:0]
+						arr.Items = arr.Items[:0]
+						for i := 0; i < n; i++ {
+							it := jx.S(one)
+							it.Sem = "string"
+							vals = append(vals, one)
+							arr.Items = append(arr.Items, it)
+						}
+						kinds["list-shaped-element"] = true
+					}
 					q[strings.Join(p, ".")] = vals
-					into.Members = append(into.Members, jx.Member{Key: m.Key, Val: m.Val.Clone()})
+					into.Members = append(into.Members, jx.Member{Key: m.Key, Val: arr})
 					kinds["scalar-array"] = true
 				default:
 					sv, isScalar := strOf(m.Val)
